@@ -24,6 +24,7 @@ import glom.core
 from glom import (T, S, Val, Spec, Auto, Coalesce, Pipe, Call, Invoke, Check, Match, Switch, And, Or, Not, M,
                   GlomError)
 from glom.core import bbrepr
+from glom import Iter
 
 from .. import fuzzrun
 from ..runner import Sub, Mismatch, HarnessBug
@@ -94,6 +95,17 @@ class Probe(object):
         return 'probe%d' % self.n
 
 
+class Factory(object):
+    def __init__(self, value):
+        self.value = value
+
+    def __call__(self):
+        return self.value
+
+    def __repr__(self):
+        return 'Factory(%r)' % (self.value,)
+
+
 def skip_all(v):
     return True
 
@@ -128,7 +140,8 @@ def gen_spec(draw, d, must_fail, counter):
             if d > 0 and draw(S_(range(6))) == 0:
                 # a spec that recovers through a CONSTANT default, inside a spec that then fails on its own
                 # without evaluating anything else (Check after its sub-spec, a T index that is missing)
-                return [draw(S_(['checkrec', 'tindexrec'])), n, [['fail', 'path', n + 500], ['fail', 'tstep', n + 501]][:draw(st.integers(1, 2))]]
+                return [draw(S_(['checkrec', 'tindexrec'])), n, [['fail', 'path', n + 500], ['fail', 'tstep', n + 501]][:draw(st.integers(1, 2))],
+                        draw(S_(['const', 'factory', 'spec']))]
             return ['fail', draw(S_(['path', 'tstep', 'glomerror', 'valueerror', 'check', 'match', 'sunbound', 'path', 'tstep'])), n]
         return ['ok', draw(S_(['plain', 'plain', 'plain', 'long', 'unicode', 'clone'])), n]
     sub = lambda mf: gen_spec(draw, d - 1, mf, counter)
@@ -207,10 +220,12 @@ def build(r):
         if kind == 'match':
             return Match('expected%d' % n)
         return getattr(S, 'unbound%d' % n)
-    if k == 'checkrec':
-        return Check(Coalesce(*[build(x) for x in r[2]], default='const%d' % r[1]), type=type('Marker%d' % r[1], (), {}))
-    if k == 'tindexrec':
-        return T[Coalesce(*[build(x) for x in r[2]], default='nokey%d' % r[1])]
+    if k in ('checkrec', 'tindexrec'):
+        how = r[3] if len(r) > 3 else 'const'
+        text = ('const%d' if k == 'checkrec' else 'nokey%d') % r[1]
+        kw = {'default': text} if how == 'const' else {'default': Val(text)} if how == 'spec' else {'default_factory': Factory(text)}
+        inner = Coalesce(*[build(x) for x in r[2]], **kw)
+        return Check(inner, type=type('Marker%d' % r[1], (), {})) if k == 'checkrec' else T[inner]
     if k == 'tuple':
         return tuple(build(x) for x in r[1])
     if k == 'pipe':
@@ -392,8 +407,8 @@ def check_trace(err, root, target, where):
                     allow(x, 'attempted branch')
             elif chainlike(n.spec):
                 allow(c, 'completed chain step')
-    for x in innermost.subtree():
-        allow(x, 'innermost subtree')
+    # (children of the innermost failing spec that completed normally -- and whatever they recovered from on
+    # their way -- had no part in the error: they are NOT allowed)
     spec_lines = [(i, p) for i, p in enumerate(parsed) if p[2] == 'Spec']
     for i, p in spec_lines:
         if not any(shown_matches(p[3], full) for full in allowed):
@@ -608,8 +623,155 @@ def check(recipe, ctx):
     ctx.outcome([ADDR.sub('', repr(spec))[:140], type(wrapped).__name__, depth])
 
 
+# ---------------------------------------------------------------------------
+# lazily evaluated sub-specs: Iter(sub) consumed by a LATER step of the chain.  The failing sub-spec is evaluated
+# while the consumer runs, in a scope that hangs off the (already finished) Iter step.
+
+class OkStep(object):
+    """a chain step with a unique, address-free repr that passes its target on"""
+    def __init__(self, n):
+        self.n = n
+        self.__name__ = 'step%d' % n
+
+    def __call__(self, t):
+        return t
+
+    def __repr__(self):
+        return 'step%d' % self.n
+
+
+class Consumer(OkStep):
+    def __call__(self, t):
+        return list(t)
+
+    def __repr__(self):
+        return 'consume%d' % self.n
+
+
+def gen_lazy(draw):
+    S_ = st.sampled_from
+    return {'pre': draw(S_([0, 0, 1, 2, 3])), 'mid': draw(S_([0, 0, 1, 2, 3])), 'post': draw(S_([0, 1])),
+            'fail': draw(S_(['path', 'tstep', 'glomerror', 'valueerror'])), 'failat': draw(S_([0, 0, 1])),
+            'how': draw(S_(['iter', 'iter', 'map', 'filter'])), 'chain': draw(S_(['tuple', 'tuple', 'pipe'])),
+            'wrap': draw(S_(['none', 'none', 'spec', 'auto', 'coalesce', 'dict', 'nested-chain']))}
+
+
+class FailAt(object):
+    """sub-spec of the Iter: passes the items before position `at`, fails (in the planted way) on that one"""
+    def __init__(self, kind, at):
+        self.kind, self.at = kind, at
+        self.__name__ = 'failat'
+
+    def glomit(self, target, scope):
+        if not target.name.endswith('_' + 'ab'[self.at]):
+            return target
+        if self.kind == 'path':
+            return scope[glom.glom](target, 'missing_lazy', scope)
+        if self.kind == 'tstep':
+            return scope[glom.glom](target, T['nope_lazy'], scope)
+        if self.kind == 'glomerror':
+            raise GlomError('lazy refuses')
+        raise ValueError('lazy fails')
+
+    def __repr__(self):
+        return 'FailAt(%r, %d)' % (self.kind, self.at)
+
+
+def build_lazy(r):
+    sub = FailAt(r['fail'], r['failat'])
+    it = {'iter': lambda: Iter(sub), 'map': lambda: Iter().map(sub), 'filter': lambda: Iter().filter(sub)}[r['how']]()
+    steps = [OkStep(i) for i in range(r['pre'])] + [Probe(77, 'list'), it] + [OkStep(10 + i) for i in range(r['mid'])] + \
+        [Consumer(20)] + [OkStep(30 + i) for i in range(r['post'])]
+    chain = tuple(steps) if r['chain'] == 'tuple' else Pipe(*steps)
+    w = r['wrap']
+    full = {'none': lambda: chain, 'spec': lambda: Spec(chain), 'auto': lambda: Auto(chain),
+            'coalesce': lambda: Coalesce(chain, 'missing_alt'), 'dict': lambda: {'k': chain},
+            'nested-chain': lambda: (OkStep(40), chain)}[w]()
+    return full, chain, steps, it, sub
+
+
+def check_lazy(recipe, ctx):
+    full, chain, steps, it, sub = build_lazy(recipe)
+    target = Named('root-target')
+    where = 'spec=%s' % ADDR.sub('', repr(full))[:300]
+    try:
+        glom.glom(target, full)
+        raise HarnessBug('lazy spec does not fail')
+    except HarnessBug:
+        raise
+    except GlomError as e:
+        err = e
+    except Exception as e:
+        ctx.label('not-wrapped')
+        return
+    wrapped = err.__dict__.get('_GlomError__wrapped', err)
+    try:
+        text = str(err)
+    except Exception as e:
+        raise Mismatch('str-raises', '%s: str(exc) raised %s: %s' % (where, type(e).__name__, e))
+    lines = text.split('\n')
+    show = text
+    if lines[0] != 'error raised while processing, details below.' or lines[1] != ' Target-spec trace (most recent last):':
+        raise Mismatch('header', '%s: message starts with %r' % (where, lines[:2]))
+    parsed = []
+    for ln in lines[2:]:
+        p_ = parse_line(ln)
+        if p_ is None:
+            break
+        parsed.append(p_)
+    tail = lines[2 + len(parsed):]
+    if not parsed or parsed[0][2] != 'Target' or parsed[0][3] != 'root-target':
+        raise Mismatch('root-target', '%s: first trace entry is not the root target:\n%s' % (where, show))
+    spec_lines = [(i, p_[3]) for i, p_ in enumerate(parsed) if p_[2] == 'Spec']
+
+    def at(spec_obj, must=True):
+        full_ = fmtval(spec_obj, 0)
+        hits = [i for i, shown in spec_lines if shown_matches(shown, full_)]
+        if len(hits) > 1:
+            raise Mismatch('lazy-duplicate-line', '%s: the spec %s is listed %d times:\n%s' % (where, full_[:60], len(hits), show))
+        if not hits and must:
+            raise Mismatch('path-spec-missing', '%s: the spec %s of the failing path is not listed:\n%s' % (where, full_[:80], show))
+        return hits[0] if hits else None
+    n_it = steps.index(it)
+    n_cons = n_it + recipe['mid'] + 1
+    evaluated = steps[:n_cons + 1]
+    never = steps[n_cons + 1:]
+    order_a = [at(chain)] + [at(x) for x in steps[:n_it + 1]]
+    if recipe['wrap'] != 'none' and recipe['wrap'] != 'nested-chain':
+        order_a.insert(0, at(full))
+    inner = [x for x in ([sub] if recipe['fail'] in ('glomerror', 'valueerror') else [sub, 'missing_lazy' if recipe['fail'] == 'path' else T['nope_lazy']])]
+    order_a += [at(x) for x in inner]
+    if order_a != sorted(order_a):
+        raise Mismatch('lazy-order', '%s: root -> chain -> steps -> Iter -> sub-spec are not listed in this order:\n%s' % (where, show))
+    order_b = [at(it)] + [at(x) for x in steps[n_it + 1:n_cons + 1]]
+    if order_b != sorted(order_b):
+        raise Mismatch('lazy-order', '%s: Iter -> later steps -> consumer are not listed in this order:\n%s' % (where, show))
+    for x in never:
+        if at(x, must=False) is not None:
+            raise Mismatch('stale-spec-line', '%s: the step %r after the failing consumer was never evaluated but is listed:\n%s' % (where, x, show))
+    # the innermost failing spec is shown with the item it received
+    idx = at(inner[-1])
+    item = 'item77_' + 'ab'[recipe['failat']]
+    above = [p_[3] for p_ in parsed[:idx] if p_[2] == 'Target']
+    if not above or above[-1] != item:
+        raise Mismatch('innermost-target', '%s: the failing sub-spec received %s but the target shown above it is %r:\n%s'
+                       % (where, item, above[-1] if above else None, show))
+    if not tail or ADDR.sub('', '\n'.join(tail)).rstrip('\n').split('\n')[-len(exc_line(wrapped).split('\n')):] != ADDR.sub('', exc_line(wrapped)).split('\n'):
+        raise Mismatch('final-line', '%s: the message does not end with the original error %s:\n%s' % (where, exc_line(wrapped)[:80], show))
+    if len(spec_lines) > len(evaluated) + 6:
+        raise Mismatch('lazy-duplicate-line', '%s: %d Spec lines for %d evaluated specs:\n%s' % (where, len(spec_lines), len(evaluated) + 3, show))
+    ctx.label('lazy-' + recipe['how'])
+    ctx.label('wrap-' + recipe['wrap'])
+    if recipe['mid']:
+        ctx.label('steps-between')
+    ctx.nontrivial(True)
+    ctx.outcome([ADDR.sub('', repr(full))[:140], type(wrapped).__name__])
+
+
+
 SUBS = [
     Sub('trace', check, gen=gen, quick=3000, thorough=10000,
         floors={'branch-point': 0.1, 'recovered-branch': 0.1, 'depth-3': 0.05, 'linear-exact': 0.1}),
+    Sub('lazy', check_lazy, gen=gen_lazy, quick=800, thorough=3000, floors={'steps-between': 0.2, 'lazy-map': 0.05}),
     fuzzrun.fuzz_sub('fuzz-trace', 'hyp:c05:trace', runs=30000, campaigns=4, replay_sub='trace'),
 ]
